@@ -260,6 +260,16 @@ class timeout:
             out.dispose_source(0)    # ... and the source's subscription is released
 
 
+class timeout_failing(timeout):
+    """no fallback was given: at the due time the sequence fails with Exception("Timeout") - the subscriber is handed to throw(that)"""
+
+    def on_fire(s, out, k):
+        if s.gen == k:
+            s.switched = True
+            out.subscribe(out.throw(Exception("Timeout")))
+            out.dispose_source(0)
+
+
 class delay_subscription:
     """the subscriber is handed to the source itself, duetime later (or at the absolute time): the whole sequence is shifted"""
 
